@@ -25,6 +25,8 @@
 #include <eventpp/utilities/scopedremover.h>
 #include <eventpp/utilities/counterremover.h>
 #include <eventpp/utilities/conditionalremover.h>
+#include <eventpp/utilities/conditionalfunctor.h>
+#include <eventpp/utilities/argumentadapter.h>
 #include <memory>
 #include <functional>
 #include <map>
@@ -61,6 +63,9 @@
 #endif
 #ifndef W_FILL
 #define W_FILL 0xA5
+#endif
+#ifndef W_CANCONT
+#define W_CANCONT 0     // 1: Policies::canContinueInvoking(args) = "the argument value is not 2"
 #endif
 #define NEVENTS 2
 
@@ -158,6 +163,16 @@ struct Cond      // condition of a ConditionalRemover: scripted, evaluated with 
 	bool operator() (ArgT p) const { return onCondition(id, p); }
 	bool operator() (const Key &, ArgT p) const { return onCondition(id, p); }
 };
+// what an argumentAdapter-wrapped listener takes instead of the prototype's argument type
+struct PayloadView { int uid, v; PayloadView(const Payload & p) : uid(p.uid), v(p.v) { regUse(&p); } };
+struct AdaptedCb
+{
+	Cb inner;
+	explicit AdaptedCb(int id) : inner(id) {}
+	void operator() (PayloadView w) const { regUse(&inner); Payload copy(w.uid, w.v, 0); onListener(inner.id, 0, copy); }
+	void operator() (const Key & k, PayloadView w) const { regUse(&inner); Payload copy(w.uid, w.v, 0); onListener(inner.id, keyToInt(k), copy); }
+};
+struct EvenCond { bool operator() (const Payload & p) const { return p.v % 2 == 0; } bool operator() (const Key &, const Payload & p) const { return p.v % 2 == 0; } };
 struct Pred
 {
 	bool operator() (ArgT p) const { return onPredicate(p); }
@@ -200,6 +215,10 @@ struct Pol
 #endif
 #if W_FILTER == 1
 	using Mixins = eventpp::MixinList<eventpp::MixinFilter>;
+#endif
+#if W_CANCONT == 1
+	static bool canContinueInvoking(const Payload & p) { return p.v != 2; }
+	static bool canContinueInvoking(const Key &, const Payload & p) { return p.v != 2; }
 #endif
 #if W_ORDER == 1
 	template <typename Item> using QueueList = eventpp::OrderedQueueList<Item>;
@@ -406,6 +425,13 @@ static bool step()
 	// CounterRemover / ConditionalRemover: the helper object is a temporary, gone right after the registration
 	else if(k == "ac") { int id = (int)H.size() + 1; H.push_back(eventpp::counterRemover(*q).appendListener(makeKey(o.a), Cb(id), o.b)); HE.push_back(o.a); evx("ac", o.a, o.b, 0, id, 0); }
 	else if(k == "ak") { int id = (int)H.size() + 1; H.push_back(eventpp::conditionalRemover(*q).appendListener(makeKey(o.a), Cb(id), Cond{id})); HE.push_back(o.a); evx("ak", o.a, 0, 0, id, 0); }
+#endif
+	// conditionalFunctor (runs when the argument value is even) / argumentAdapter (converts the argument to the listener's own type)
+	else if(k == "aw") { int id = (int)H.size() + 1; H.push_back(q->appendListener(makeKey(o.a), eventpp::conditionalFunctor(Cb(id), EvenCond()))); HE.push_back(o.a); evx("aw", o.a, 0, 0, id, 0); }
+#if W_MODE == 1
+	else if(k == "aa") { int id = (int)H.size() + 1; H.push_back(q->appendListener(makeKey(o.a), eventpp::argumentAdapter<void (const Key &, PayloadView)>(AdaptedCb(id)))); HE.push_back(o.a); evx("al", o.a, 0, 0, id, 0); }
+#else
+	else if(k == "aa") { int id = (int)H.size() + 1; H.push_back(q->appendListener(makeKey(o.a), eventpp::argumentAdapter<void (PayloadView)>(AdaptedCb(id)))); HE.push_back(o.a); evx("al", o.a, 0, 0, id, 0); }
 #endif
 	// ScopedRemover o.a
 	else if(k == "sa" || k == "sp") {
